@@ -268,14 +268,24 @@ def obs_impl(s):
 def proj_c15(c):
     """validation paths (mode A): refused or accepted, error class, state untouched on refusal."""
     k = c.step['op'][0]
-    if k not in C15_OPS:
+    if k == 'update':
+        # an update is inside C15 when it has to place a negative mark on a holding (a documented refusal): refused by
+        # the code exactly when the model refuses, with the same class, and cash, holdings, queues and history untouched
+        # (the clock and the marks placed before the refusal are not among the things the property freezes).
+        qs = c.step.get('quotes') or {}
+        held = set(q['asset'] for p in c.pre['pfs'] for q in p['positions'])
+        if not any(a in qs and (qs[a][0] + qs[a][1]) / 2 < 0 for a in held):
+            return 'skipped'
+        if any(a not in qs for a in held) or c.step['op'][1] < c.pre.get('clock', c.step['op'][1]):
+            return 'skipped'      # unquoted holdings / regressing clock: outside every quantifier
+    elif k not in C15_OPS:
         return 'skipped'
     if k == 'q' and not c.mf:
         # getters without a model line (pfdict, cash): judged by the oracle only
         return 'skipped'
     import k3_oracle
     documented = k3_oracle.expected_refusal(c.step['op'], c.pre)
-    if k == 'q' or c.step['out'] != 'ok' or documented is not None:
+    if k in ('q', 'update') or c.step['out'] != 'ok' or documented is not None:
         # a refusal happened, or one of the documented refusals is due: class and (non-)acceptance must match the model
         cmp_out(c, 'accepted/refused and error class')
     if k == 'q' and c.step['op'][1] == 'cash' and c.step['out'] == 'ok' and c.mf.get('out') == 'ok':
